@@ -53,7 +53,7 @@ func (cache *httpCache) Store(target *core.BuildTarget, key []byte, files []stri
 		go cache.write(w, target, files)
 		req, err := retryablehttp.NewRequest(http.MethodPut, cache.makeURL(key), r)
 		if err != nil {
-			log.Warning("Invalid cache URL: %s", err)
+			log.Warning("Failed to create request to store files in HTTP cache: %s", err)
 			return
 		}
 		if resp, err := cache.client.Do(req); err != nil {
@@ -70,7 +70,7 @@ func (cache *httpCache) makeURL(key []byte) string {
 }
 
 // write writes a series of files into the given Writer.
-func (cache *httpCache) write(w io.WriteCloser, target *core.BuildTarget, files []string) {
+func (cache *httpCache) write(w *io.PipeWriter, target *core.BuildTarget, files []string) {
 	defer w.Close()
 	gzw := gzip.NewWriter(w)
 	defer gzw.Close()
@@ -83,7 +83,10 @@ func (cache *httpCache) write(w io.WriteCloser, target *core.BuildTarget, files 
 			return storeFile(tw, name)
 		}); err != nil {
 			log.Warning("Error uploading artifacts to HTTP cache: %s", err)
-			// TODO(peterebden): How can we cancel the request at this point?
+			// Fail the reading side of the pipe so the request is abandoned; otherwise we'd
+			// finish off & upload a well-formed archive that is missing some of the files.
+			w.CloseWithError(err)
+			return
 		}
 	}
 }
